@@ -394,9 +394,19 @@ func (e *Engine) discharge(o *Obligation, workdir string, budgetS int, idx int) 
 			go func() { ch <- runSolver(ctx, sp, budget, file) }()
 		}
 		best := solveResult{status: "unknown"}
+		nerr := 0
 		for i := 0; i < len(solvers); i++ {
 			rr := <-ch
 			o.Outputs[rr.solver] = firstLines(rr.out, 3)
+			if rr.status == "error" {
+				nerr++
+				if nerr == len(solvers) {
+					// every back end rejected the query: a generator bug, not a proof failure
+					fmt.Fprintf(os.Stderr, "govc: malformed VC for %s: %s\n", o.Name, firstLines(rr.out, 2))
+					return solveResult{solver: rr.solver, status: "error", out: rr.out}
+				}
+				continue
+			}
 			if rr.status == "unsat" || (rr.status == "sat" && !unsatOnly) {
 				return rr
 			}
